@@ -238,4 +238,81 @@ theorem C01_written_partition (P : PartImg) (links : List Link) (hok : P.Ok link
   simp only [r0, r2, r4, r198, r200, rv, rw_, words16_encWords P.sat hok.sat, hok.decode, hsz, if_false,
     ne_eq, not_true_eq_false, or_self, hwin]
 
+/-- the partitions a written disc denotes, lettered from `k`. -/
+def toParts : Nat → List (PartImg × List Link) → List Part
+  | _, [] => []
+  | k, (P, links) :: rest => ⟨k, P.bytes, P.vols.map fun x => x.1.toVol x.2, links⟩ :: toParts (k + 1) rest
+
+/-- **C01 (the disc a writer stores is the list of partitions the parser scans).** A file that is a
+sequence of written partitions (after any prefix the scan has already passed) is scanned into exactly
+those partitions, lettered consecutively, each with its written volume slots, decoded table and
+window. -/
+theorem C01_written_disc : ∀ (Ps : List (PartImg × List Link)) (pre : Bytes) (k fuel : Nat),
+    (∀ x ∈ Ps, x.1.Ok x.2) → Ps.length < fuel →
+    partitions (pre ++ Ps.flatMap (fun x => x.1.bytes)) fuel pre.length k = .ok (toParts k Ps) := by
+  intro Ps
+  induction Ps with
+  | nil =>
+    intro pre k fuel _ hf
+    cases fuel with
+    | zero => omega
+    | succ f => simp [partitions, toParts]
+  | cons x Ps ih =>
+    intro pre k fuel hok hf
+    obtain ⟨P, links⟩ := x
+    have hP : P.Ok links := hok (P, links) (by simp)
+    cases fuel with
+    | zero => simp at hf
+    | succ f =>
+      have hpos : 0 < P.bytes.length := by
+        rw [hP.total]
+        have := hP.size.1
+        exact Nat.mul_pos this (by decide)
+      have hlt : pre.length < (pre ++ List.flatMap (fun x => x.1.bytes) ((P, links) :: Ps)).length := by
+        simp only [List.flatMap_cons, List.length_append]
+        omega
+      have hshape : pre ++ List.flatMap (fun x => x.1.bytes) ((P, links) :: Ps)
+          = pre ++ (P.bytes ++ List.flatMap (fun x => x.1.bytes) Ps) := by
+        simp [List.flatMap_cons]
+      have hparse := C01_written_partition P links hP pre (List.flatMap (fun x => x.1.bytes) Ps) k
+      have hnext : pre ++ (P.bytes ++ List.flatMap (fun x => x.1.bytes) Ps)
+          = (pre ++ P.bytes) ++ List.flatMap (fun x => x.1.bytes) Ps := by simp [List.append_assoc]
+      have hrec := ih (pre ++ P.bytes) (k + 1) f (fun y hy => hok y (by simp [hy])) (by simp at hf; omega)
+      rw [List.length_append, hP.total] at hrec
+      simp only [partitions, hlt, if_true]
+      rw [hshape, hparse]
+      simp only
+      rw [hnext, hrec]
+      simp [toParts]
+
+theorem disc_length_ge : ∀ (Ps : List (PartImg × List Link)), (∀ x ∈ Ps, x.1.Ok x.2) →
+    Ps.length * SECTOR ≤ (Ps.flatMap fun x => x.1.bytes).length := by
+  intro Ps
+  induction Ps with
+  | nil => intro _; simp
+  | cons x Ps ih =>
+    intro hok
+    have hx := hok x (by simp)
+    have := ih (fun y hy => hok y (by simp [hy]))
+    simp only [List.flatMap_cons, List.length_append, List.length_cons, hx.total]
+    have h1 : SECTOR ≤ x.1.size * SECTOR := Nat.le_mul_of_pos_left _ hx.size.1
+    rw [Nat.succ_mul]
+    omega
+
+/-- **C01 (the tree of a written disc).** The directory tree the tool builds from a file that is a
+sequence of written partitions is the tree of exactly those partitions: `A:`, `B:`, … in order, each
+with the volumes of its written volume table (`C01_written_volume` for each volume, `C01_written_sample`
+for each sample file). -/
+theorem C01_written_tree (Ps : List (PartImg × List Link)) (hok : ∀ x ∈ Ps, x.1.Ok x.2)
+    (programOk : Bytes → Bool) :
+    tree (Ps.flatMap fun x => x.1.bytes) programOk = tree.go programOk (toParts 0 Ps) := by
+  have hscan := C01_written_disc Ps [] 0 ((Ps.flatMap fun x => x.1.bytes).length / SECTOR + 2) hok (by
+    have := disc_length_ge Ps hok
+    have : Ps.length ≤ (Ps.flatMap fun x => x.1.bytes).length / SECTOR :=
+      (Nat.le_div_iff_mul_le (by decide)).mpr this
+    omega)
+  simp only [List.nil_append, List.length_nil] at hscan
+  unfold tree
+  rw [hscan]
+
 end Smpl.Props.C01
